@@ -1,9 +1,358 @@
 package main
 
-import (
-	"math/rand"
+// Correspondence of coq/Model/Order.v (and sort_ings of Model/Conv.v) with the real code:
+//   CSort   ingress.sortIngress (hook VerifSortIngress) on shuffled lists with equal stamps;
+//   CKeys   converter.readConfigKeys (hook VerifReadConfigKeys) with one to three annotation
+//           prefixes, the same key under several prefixes with distinct values;
+//   CMapper annotations.Mapper driven directly: AddAnnotations calls from several sources on
+//           several paths (validated / normalised / rejected values), then Get, GetConfig().Get
+//           and the conflicts of every call;
+//   CHosts  the real pipeline (watchers, converter, updater): ingresses sharing hosts, with
+//           app-root / redirect-from / redirect-from-regex under both prefixes, equal creation
+//           stamps, tls-only hosts; observed per host: RootRedirect, RedirectHost,
+//           RedirectHostRegex of the haproxy model after the full sync.
 
+import (
+	"fmt"
+	"math/rand"
+	"path/filepath"
+	"sort"
+	"strings"
+
+	api "k8s.io/api/core/v1"
+	networking "k8s.io/api/networking/v1"
+	"k8s.io/apimachinery/pkg/util/intstr"
+	"sigs.k8s.io/controller-runtime/pkg/client"
+
+	ingress "github.com/jcmoraisjr/haproxy-ingress/pkg/converters/ingress"
+	"github.com/jcmoraisjr/haproxy-ingress/pkg/converters/ingress/annotations"
+	convtypes "github.com/jcmoraisjr/haproxy-ingress/pkg/converters/types"
+	hatypes "github.com/jcmoraisjr/haproxy-ingress/pkg/haproxy/types"
+
+	"verif/harness/lib/c06"
 	"verif/harness/lib/hx"
+	"verif/harness/lib/pipeline"
+	"verif/harness/lib/world"
 )
 
-func correspondence(o *hx.Opts, rng *rand.Rand, res *hx.Result, cw *hx.CaseWriter) {}
+func coqAnn(m map[string]string) string {
+	var items []string
+	for _, k := range hx.SortedKeys(m) {
+		items = append(items, hx.Tuple(hx.Str(k), hx.Str(m[k])))
+	}
+	return hx.List(items)
+}
+
+func coqStrs(l []string) string {
+	items := make([]string, len(l))
+	for i, s := range l {
+		items[i] = hx.Str(s)
+	}
+	return hx.List(items)
+}
+
+// ---------------------------------------------------------------- CSort
+
+type sortIn struct {
+	Ings     [][3]interface{} `json:"ings"` // ns, name, stamp
+	Observed []string         `json:"observed"`
+}
+
+func genSort(rng *rand.Rand) (string, interface{}, bool) {
+	n := 2 + rng.Intn(8)
+	seen := map[string]bool{}
+	var ings []*networking.Ingress
+	for len(ings) < n {
+		ns, name := world.Namespaces[rng.Intn(3)], world.IngressNames[rng.Intn(7)]
+		if rng.Intn(6) == 0 {
+			name = name + "x" // one name a prefix of another
+		}
+		if seen[ns+"/"+name] {
+			if len(seen) >= 21 {
+				break
+			}
+			continue
+		}
+		seen[ns+"/"+name] = true
+		ing := &networking.Ingress{}
+		ing.Namespace, ing.Name = ns, name
+		ing.CreationTimestamp = world.Stamp([]int{10, 15, 15, 15, 20, 20, 7}[rng.Intn(7)])
+		ings = append(ings, ing)
+	}
+	var in []string
+	js := sortIn{}
+	for _, i := range ings {
+		in = append(in, hx.Tuple(hx.Str(i.Namespace), hx.Str(i.Name), hx.Z(i.CreationTimestamp.Unix())))
+		js.Ings = append(js.Ings, [3]interface{}{i.Namespace, i.Name, i.CreationTimestamp.Unix()})
+	}
+	ingress.VerifSortIngress(ings)
+	equalStamps := false
+	for k, i := range ings {
+		js.Observed = append(js.Observed, i.Namespace+"/"+i.Name)
+		if k > 0 && ings[k-1].CreationTimestamp == i.CreationTimestamp {
+			equalStamps = true
+		}
+	}
+	return fmt.Sprintf("CSort @ID@ %s %s", hx.List(in), coqStrs(js.Observed)), js, equalStamps
+}
+
+// ---------------------------------------------------------------- CKeys
+
+var prefixSets = [][]string{
+	{"haproxy-ingress.github.io", "ingress.kubernetes.io"},
+	{"ingress.kubernetes.io", "haproxy-ingress.github.io"},
+	{"a.io", "a.io/x"},
+	{"a.io/x", "a.io"},
+	{"haproxy-ingress.github.io"},
+	{"a.io", "b.io", "a.io/x"},
+}
+
+func genKeys(rng *rand.Rand) (string, interface{}, bool) {
+	prefixes := prefixSets[rng.Intn(len(prefixSets))]
+	pool := append([]string{"other.io", "kubernetes.io"}, prefixes...)
+	keys := []string{"app-root", "redirect-from", "k", "x/k", "x/app-root", "ssl-redirect"}
+	ann := map[string]string{}
+	for i, n := 0, rng.Intn(7); i < n; i++ {
+		ann[pool[rng.Intn(len(pool))]+"/"+keys[rng.Intn(len(keys))]] = []string{"1", "2", "3", ""}[rng.Intn(4)]
+	}
+	if rng.Intn(5) == 0 {
+		ann["plain"] = "v"
+		ann[prefixes[0]] = "noslash"
+	}
+	out := ingress.VerifReadConfigKeys(prefixes, ann)
+	// non-trivial: some key offered by two prefixes with distinct values
+	clash := false
+	for k1, v1 := range ann {
+		for k2, v2 := range ann {
+			for _, p1 := range prefixes {
+				for _, p2 := range prefixes {
+					if p1 != p2 && strings.HasPrefix(k1, p1+"/") && strings.HasPrefix(k2, p2+"/") &&
+						strings.TrimPrefix(k1, p1+"/") == strings.TrimPrefix(k2, p2+"/") && v1 != v2 {
+						clash = true
+					}
+				}
+			}
+		}
+	}
+	return fmt.Sprintf("CKeys @ID@ %s %s %s", coqStrs(prefixes), coqAnn(ann), coqAnn(out)),
+		map[string]interface{}{"prefixes": prefixes, "annotations": ann, "observed": out}, clash
+}
+
+// ---------------------------------------------------------------- CMapper
+
+var mapperValues = map[string][]string{
+	"hsts":              {"true", "false", "T", "1", "0", "maybe", "TRUE", "tRuE", ""},
+	"ssl-redirect":      {"true", "false", "F", "x"},
+	"hsts-max-age":      {"10", "010", "+5", "-3", "x", "", "0", "-0"},
+	"balance-algorithm": {"leastconn", "first", "roundrobin"},
+	"timeout-server":    {"5s", "9s"},
+	"app-root":          {"/a", "/b"},
+}
+
+type mapperSource struct{ kind, ns, name string }
+
+func (s mapperSource) String() string { return s.kind + " " + s.ns + "/" + s.name }
+
+func genMapper(rng *rand.Rand) (string, interface{}, bool) {
+	defaults := map[string]string{"balance-algorithm": "roundrobin", "hsts-max-age": "15768000", "timeout-server": "50s"}
+	sources := []mapperSource{{"Service", "ns1", "svc1"}, {"Ingress", "ns1", "ing1"}, {"Ingress", "ns1", "ing2"}, {"Ingress", "ns2", "ing1"}}
+	type plink struct {
+		name string
+		link *hatypes.PathLink
+	}
+	paths := []plink{
+		{"a.example|/|prefix", hatypes.CreateHostPathLink("a.example", "/", hatypes.MatchPrefix)},
+		{"a.example|/app|exact", hatypes.CreateHostPathLink("a.example", "/app", hatypes.MatchExact)},
+		{"b.example|/|begin", hatypes.CreateHostPathLink("b.example", "/", hatypes.MatchBegin)},
+	}
+	keyPool := hx.SortedKeys(mapperValues)
+	mapper := annotations.NewMapBuilder(&pipeline.Logger{}, defaults).NewMapper()
+	var calls, conflicts []string
+	var jcalls []interface{}
+	anyConflict := false
+	for i, n := 0, 1+rng.Intn(7); i < n; i++ {
+		src := sources[rng.Intn(len(sources))]
+		p := paths[rng.Intn(len(paths))]
+		ann := map[string]string{}
+		for j, m := 0, rng.Intn(5); j < m; j++ {
+			k := keyPool[rng.Intn(len(keyPool))]
+			ann[k] = mapperValues[k][rng.Intn(len(mapperValues[k]))]
+		}
+		cf := mapper.AddAnnotations(&annotations.Source{Namespace: src.ns, Name: src.name, Type: convtypes.ResourceType(src.kind)}, p.link, ann)
+		sort.Strings(cf)
+		if len(cf) > 0 {
+			anyConflict = true
+		}
+		calls = append(calls, hx.Tuple(hx.Str(src.String()), hx.Str(p.name), coqAnn(ann)))
+		conflicts = append(conflicts, coqStrs(cf))
+		jcalls = append(jcalls, map[string]interface{}{"source": src.String(), "path": p.name, "annotations": ann, "conflicts": cf})
+	}
+	srcOf := func(cv *annotations.ConfigValue) string {
+		if cv.Source == nil {
+			return "None"
+		}
+		return "(Some " + hx.Str(string(cv.Source.Type)+" "+cv.Source.FullName()) + ")"
+	}
+	var gets, pgets []string
+	jget := map[string]string{}
+	for _, k := range append(keyPool, "unknown-key") {
+		cv := mapper.Get(k)
+		gets = append(gets, hx.Tuple(hx.Str(k), hx.Tuple(srcOf(cv), hx.Str(cv.Value))))
+		jget[k] = srcOf(cv) + " " + cv.Value
+		for _, p := range paths {
+			pv := mapper.GetConfig(p.link).Get(k)
+			pgets = append(pgets, hx.Tuple(hx.Str(p.name), hx.Str(k), hx.Tuple(srcOf(pv), hx.Str(pv.Value))))
+			jget[p.name+" "+k] = srcOf(pv) + " " + pv.Value
+		}
+	}
+	return fmt.Sprintf("CMapper @ID@ %s %s %s %s %s", coqAnn(defaults), hx.List(calls), hx.List(gets), hx.List(pgets), hx.List(conflicts)),
+		map[string]interface{}{"defaults": defaults, "calls": jcalls, "answers": jget}, anyConflict
+}
+
+// ---------------------------------------------------------------- CHosts
+
+var hostsPool = []string{"a.example", "b.example", "c.example", "d.example", ""}
+
+func genHostsCluster(rng *rand.Rand) []client.Object {
+	var objs []client.Object
+	for _, ns := range world.Namespaces[:2] {
+		for _, s := range world.ServiceNames[:3] {
+			objs = append(objs, world.Service(ns, s, world.SvcPort{Name: "http", Port: 80, TargetPort: intstr.FromInt(8080)}))
+			objs = append(objs, world.Endpoints(ns, s, world.EpPort{Name: "http", Port: 8080, Ready: []string{"10.0.0.1"}}))
+		}
+	}
+	n := 1 + rng.Intn(5)
+	perm := rng.Perm(len(world.IngressNames))
+	for k := 0; k < n; k++ {
+		ns := world.Namespaces[rng.Intn(2)]
+		var rules []world.IngRule
+		for i, m := 0, rng.Intn(4); i < m; i++ {
+			r := world.IngRule{Host: hostsPool[rng.Intn(len(hostsPool))]}
+			for j, q := 0, 1+rng.Intn(2); j < q; j++ {
+				r.Paths = append(r.Paths, world.IngPath{Path: []string{"/", "/a", "/b"}[rng.Intn(3)], Type: "Prefix",
+					Service: world.ServiceNames[rng.Intn(3)], PortNum: 80})
+			}
+			rules = append(rules, r)
+		}
+		ing := world.Ingress(ns, world.IngressNames[perm[k]], []int{10, 15, 15, 15, 20}[rng.Intn(5)], rules...)
+		if rng.Intn(3) == 0 {
+			t := networking.IngressTLS{}
+			for j, m := 0, 1+rng.Intn(2); j < m; j++ {
+				if h := hostsPool[rng.Intn(len(hostsPool))]; h != "" {
+					t.Hosts = append(t.Hosts, h)
+				}
+			}
+			ing.Spec.TLS = append(ing.Spec.TLS, t)
+		}
+		ann := map[string]string{}
+		for _, a := range [][]string{{"app-root", "/x", "/y"}, {"redirect-from", "r1.example", "r2.example"},
+			{"redirect-from-regex", `^r[0-9]\.example$`, `^s[0-9]\.example$`}, {"balance-algorithm", "leastconn"}} {
+			switch rng.Intn(5) {
+			case 0:
+				ann[c06.Prefixes[0]+a[0]] = a[1+rng.Intn(len(a)-1)]
+			case 1:
+				ann[c06.Prefixes[1]+a[0]] = a[1+rng.Intn(len(a)-1)]
+			case 2:
+				ann[c06.Prefixes[0]+a[0]] = a[1+rng.Intn(len(a)-1)]
+				ann[c06.Prefixes[1]+a[0]] = a[1+rng.Intn(len(a)-1)]
+			}
+		}
+		if len(ann) > 0 {
+			ing.Annotations = ann
+		}
+		objs = append(objs, ing)
+	}
+	return c06.Stamp(objs)
+}
+
+func genHosts(rng *rand.Rand, i int) (string, interface{}, bool, error) {
+	objs := genHostsCluster(rng)
+	r := c06.Run{Dir: filepath.Join(workdir, "corr"), Opts: c06.Opts{WatchWithoutClass: true}, Objs: objs,
+		Order: rng.Perm(len(objs)), ShuffleLists: i%2 == 1, Seed: int64(i)}
+	res, err := c06.Exec(r, universe, true)
+	if err != nil {
+		return "", nil, false, err
+	}
+	defer res.Pipeline.Close()
+	hosts := res.Pipeline.Config().Hosts().Items()
+	var obs []string
+	jobs := map[string]interface{}{}
+	for _, h := range hx.SortedKeys(hosts) {
+		host := hosts[h]
+		obs = append(obs, hx.Tuple(hx.Str(h), hx.Tuple(hx.Str(host.RootRedirect), hx.Tuple(hx.Str(host.Redirect.RedirectHost), hx.Str(host.Redirect.RedirectHostRegex)))))
+		jobs[h] = []string{host.RootRedirect, host.Redirect.RedirectHost, host.Redirect.RedirectHostRegex}
+	}
+	var ings []string
+	var jings []interface{}
+	claims := map[string]map[string]bool{}
+	shared := false
+	for _, idx := range r.Order {
+		ing, ok := objs[idx].(*networking.Ingress)
+		if !ok {
+			continue
+		}
+		var rules, tls []string
+		for _, rule := range ing.Spec.Rules {
+			rules = append(rules, hx.Tuple(hx.Str(rule.Host), hx.Nat(len(rule.HTTP.Paths))))
+		}
+		for _, t := range ing.Spec.TLS {
+			for _, h := range t.Hosts {
+				tls = append(tls, hx.Str(h))
+			}
+		}
+		ings = append(ings, fmt.Sprintf("{| hn_ns := %s; hn_name := %s; hn_stamp := %s; hn_rules := %s; hn_tls := %s; hn_ann := %s |}",
+			hx.Str(ing.Namespace), hx.Str(ing.Name), hx.Z(ing.CreationTimestamp.Unix()), hx.List(rules), hx.List(tls), coqAnn(ing.Annotations)))
+		jings = append(jings, map[string]interface{}{"name": ing.Namespace + "/" + ing.Name, "stamp": ing.CreationTimestamp.Unix(),
+			"hosts": hostsOf(ing), "annotations": ing.Annotations})
+		for _, key := range []string{"redirect-from", "redirect-from-regex", "app-root"} {
+			if v, ok := annValue(ing, key); ok {
+				for _, h := range hostsOf(ing) {
+					if claims[key+"="+v] == nil {
+						claims[key+"="+v] = map[string]bool{}
+					}
+					claims[key+"="+v][h] = true
+					if len(claims[key+"="+v]) > 1 {
+						shared = true
+					}
+				}
+			}
+		}
+	}
+	_ = api.ProtocolTCP
+	return fmt.Sprintf("CHosts @ID@ %s %s %s", coqStrs([]string{"haproxy-ingress.github.io", "ingress.kubernetes.io"}), hx.List(ings), hx.List(obs)),
+		map[string]interface{}{"ingresses_in_api_order": jings, "observed_hosts": jobs}, shared, nil
+}
+
+// ---------------------------------------------------------------- driver
+
+func correspondence(o *hx.Opts, rng *rand.Rand, res *hx.Result, cw *hx.CaseWriter) {
+	add := func(kind, term string, js interface{}, nontrivial bool) {
+		res.Seen(kind+":"+term, nontrivial)
+		res.Count("corr_" + kind)
+		if res.Distribution["corr_"+kind] <= 1 {
+			res.Sample(8, map[string]interface{}{"corr_" + kind: js})
+		}
+		cw.Add(func(id int) string { return strings.Replace(term, "@ID@", hx.N(id), 1) }, map[string]interface{}{"kind": kind, "case": js})
+	}
+	for i, n := 0, o.Count(300, 6000); i < n; i++ {
+		t, js, nt := genSort(rng)
+		add("sort", t, js, nt)
+	}
+	for i, n := 0, o.Count(400, 8000); i < n; i++ {
+		t, js, nt := genKeys(rng)
+		add("keys", t, js, nt)
+	}
+	for i, n := 0, o.Count(400, 8000); i < n; i++ {
+		t, js, nt := genMapper(rng)
+		add("mapper", t, js, nt)
+	}
+	for i, n := 0, o.Count(150, 3000); i < n; i++ {
+		t, js, nt, err := genHosts(rng, i)
+		if err != nil {
+			res.Count("corr_hosts_error")
+			res.Fail(hx.Failure{Key: "C06/update-error", What: "a pipeline of the correspondence failed: " + err.Error(), Input: js})
+			continue
+		}
+		add("hosts", t, js, nt)
+	}
+}
